@@ -24,3 +24,23 @@ Example C06_split_stale_refuted :
   let q := QBytes qint8 None [4; 6]%Z [6; 1]%Z (T [4; 6]%Z (repeat 0%Z 24)) (T [] [1%Z]) in
   qb_inv q = true /\ qb_inv (rewrap_stale q (T [2; 6]%Z (repeat 0%Z 12))) = false.
 Proof. exact stale_size_refuted. Qed.
+
+(* the invariant is kept by EVERY way the op implementations build a result - same layout (mul / div / neg / relu /
+   detach / clone / _to_copy / copy_), moved payload with its own size (move class, per-tensor), 2-D transpose of a
+   per-axis tensor (payload and scale transposed, axis flipped 0 <-> -1) - hence along every program of such steps,
+   of any length (induction over the program) *)
+From QV Require Import Proofs.QOpsInv.
+Theorem C06_same_layout_preserves : forall (F : Type) (q : qbytes F) (data' scale' : tensor F),
+  shape data' = shape (qb_data q) -> shape scale' = shape (qb_scale q) ->
+  qb_inv q = true -> qb_inv (rewrap_same q data' scale') = true.
+Proof. intros F. exact (@same_layout_preserves_inv F). Qed.
+Theorem C06_transpose2d_preserves : forall (F : Type) (q : qbytes F) (d0 d1 : Z) (data' scale' : tensor F),
+  qb_size q = [d0; d1]%Z -> shape data' = [d1; d0]%Z ->
+  (qb_axis q = None -> shape scale' = shape (qb_scale q)) ->
+  (qb_axis q <> None -> shape scale' = rev (shape (qb_scale q))) ->
+  qb_inv q = true -> qb_inv (rewrap_t q data' scale') = true.
+Proof. intros F. exact (@transpose2d_preserves_inv F). Qed.
+Theorem C06_invariant_along_programs : forall (F : Type) (q q' : qbytes F),
+  steps q q' -> qb_inv q = true -> qb_inv q' = true.
+Proof. intros F. exact (@invariant_along_programs F). Qed.
+Print Assumptions C06_invariant_along_programs.
